@@ -6,6 +6,7 @@ package main
 
 import (
 	"bytes"
+	"math/big"
 	"fmt"
 	"strconv"
 	"unicode/utf8"
@@ -89,6 +90,52 @@ func genUtil(tier string, rng *RNG, emit func(Case)) {
 		emit(Case{Op: "caseFold", Args: []string{hx(enc)}})
 		emit(Case{Op: "toLinkRef", Args: []string{hx(append(append([]byte("x "), enc...), 'Y'))}})
 	}
+	// every BMP scalar value (and a stride above) through urlEscape, alone and in context; long numeric references
+	for r := 0; r < 0x110000; r++ {
+		if r >= 0x10000 && r%61 != 0 {
+			continue
+		}
+		if r >= 0xD800 && r <= 0xDFFF {
+			continue
+		}
+		if tier != "thorough" && r >= 0x3000 && r < 0xFF00 && r%7 != 0 {
+			continue
+		}
+		enc := []byte(string(rune(r)))
+		emit(Case{Op: "urlEscape", Args: []string{hx(enc), "0"}})
+		emit(Case{Op: "urlEscape", Args: []string{hx(append(append([]byte("/p"), enc...), 'q')), "1"}})
+	}
+	hexd := "0123456789abcdefABCDEF"
+	for k := 1; k <= 20; k++ {
+		for rep := 0; rep < 60; rep++ {
+			var ds []byte
+			switch rep % 3 {
+			case 0: // 1 followed by zeros and a small tail: wraps to a harmless code point in a narrow accumulator
+				ds = append(ds, '1')
+				for len(ds) < k {
+					ds = append(ds, '0')
+				}
+				if k >= 3 {
+					tail := []string{"41", "3C", "26", "22", "00"}[rep/3%5]
+					copy(ds[len(ds)-len(tail):], tail)
+				}
+			default:
+				for len(ds) < k {
+					ds = append(ds, hexd[rng.Intn(len(hexd))])
+				}
+			}
+			for _, pre := range []string{"&#x", "&#X"} {
+				v := []byte(pre + string(ds) + ";")
+				emit(Case{Op: "resolveNumeric", Args: []string{hx(v)}})
+				emit(Case{Op: "urlEscape", Args: []string{hx(append([]byte("/p"), v...)), "1"}})
+			}
+			var dd []byte
+			for len(dd) < k {
+				dd = append(dd, "0123456789"[rng.Intn(10)])
+			}
+			emit(Case{Op: "resolveNumeric", Args: []string{hx([]byte("&#" + string(dd) + ";"))}})
+		}
+	}
 	for _, rr := range []string{"0", "1"} {
 		for c := 0; c < 256; c++ {
 			emit(Case{Op: "urlEscape", Args: []string{hx([]byte{byte(c)}), rr}})
@@ -164,6 +211,20 @@ func decodeEscapedHTML(b []byte) ([]byte, bool) {
 		i++
 	}
 	return out, true
+}
+
+// soleHexRef: the input is exactly `&#x<hex digits>;` (any length); returns its value
+func soleHexRef(in []byte) (*big.Int, bool) {
+	if len(in) < 5 || in[0] != '&' || in[1] != '#' || (in[2] != 'x' && in[2] != 'X') || in[len(in)-1] != ';' {
+		return nil, false
+	}
+	for _, c := range in[3 : len(in)-1] {
+		if !isHexB(c) {
+			return nil, false
+		}
+	}
+	v, ok := new(big.Int).SetString(string(in[3:len(in)-1]), 16)
+	return v, ok
 }
 
 func isHexB(c byte) bool {
@@ -275,6 +336,16 @@ func implUtil(c Case) ImplResult {
 		r.Out = hx(out)
 		if utf8.Valid(in) && !utf8.Valid(out) {
 			r.Fails = append(r.Fails, OracleFail{"C19", "resolver-valid-utf8", fmt.Sprintf("ResolveNumericReferences(%q)=%q is not valid UTF-8", in, out)})
+		}
+		// the law "out-of-range code points become U+FFFD", on inputs that are exactly one hexadecimal reference
+		if v, ok := soleHexRef(in); ok {
+			want := []byte("\ufffd")
+			if v.Sign() > 0 && v.Cmp(big.NewInt(0x10FFFF)) <= 0 && !(v.Cmp(big.NewInt(0xD800)) >= 0 && v.Cmp(big.NewInt(0xDFFF)) <= 0) {
+				want = []byte(string(rune(v.Int64())))
+			}
+			if !bytes.Equal(out, want) {
+				r.Fails = append(r.Fails, OracleFail{"C19", "numeric-reference-value", fmt.Sprintf("ResolveNumericReferences(%q)=%q, the code point it names gives %q", in, out, want)})
+			}
 		}
 	case "resolveEntities":
 		in := arg(0)
